@@ -92,7 +92,7 @@ class Histories(Part):
             "links | markup | plain text with < > & quotes | table | panel), log, rule, line(n), bell/clear/cursor, capture{1-3 prints}, export_text(clear, "
             "styles), export_html(clear, inline_styles); non-trivial = >= 2 prints with different adjacent styles, a control op followed by an unstyled "
             "line, and both a clearing and a non-clearing export")
-    budget = {"quick": (8, 250), "thorough": (16, 5000)}
+    budget = {"quick": (16, 300), "thorough": (16, 5000)}
     chunk = 250
 
     def strategy(self, tier):
